@@ -44,6 +44,7 @@ pub fn model_space(tier: Tier) -> Vec<Model> {
             v.extend(gen::m5(0));
             v.extend(gen::m6(0));
             v.extend(gen::m7(0));
+            v.extend(gen::m8(0));
         }
         Tier::Thorough => {
             v.extend(gen::m1(1));
@@ -53,6 +54,7 @@ pub fn model_space(tier: Tier) -> Vec<Model> {
             v.extend(gen::m5(1));
             v.extend(gen::m6(1));
             v.extend(gen::m7(1));
+            v.extend(gen::m8(1));
         }
     }
     v
